@@ -212,7 +212,11 @@ def match_finding(ev, findings, prop):
             continue
         if "when" in m:
             try:
-                if not eval(m["when"], {"__builtins__": {}}, dict(d, e=d, len=len, int=int, abs=abs, min=min, max=max)):
+                # one namespace (comprehensions inside eval cannot see a separate locals mapping)
+                ns = dict(d, e=d, len=len, int=int, abs=abs, min=min, max=max, all=all, any=any, zip=zip, enumerate=enumerate,
+                          nat=lambda b: int.from_bytes(bytes(b), "little"))
+                ns["__builtins__"] = {}
+                if not eval(m["when"], ns):
                     continue
             except Exception:
                 continue
